@@ -62,6 +62,11 @@ def shapes(tier, seed):
         rng = np.random.default_rng(seed)
         for bits in itertools.product((False, True), repeat=5):
             out.append({"n_b": 4, "n_o": 1, "n_t": 2, "pattern": [], "gseed": seed, "fixed": {str(i): bool(b) for i, b in enumerate(bits)}})
+    # Cartesian position mode: the three Cartesian getters of the position grid are Qhull (contract stubs: fresh positive values on the
+    # adjacency pattern, positive volumes); what FullGrid makes of them must follow the same rule -- the position-grid quantity, times f / f^2
+    for (b, o, t) in ((1, 2, 2), (2, 2, 2), (2, 3, 1), (2, 1, 2)):
+        pats = list(sym_patterns(o))
+        out.append({"n_b": b, "n_o": o, "n_t": t, "pattern": [list(p) for p in pats[-1]], "gseed": seed + 1, "fixed": {}, "cartesian": True})
     out.sort(key=lambda s: (s["n_b"] * s["n_o"] * s["n_t"], s["n_b"]))
     return out
 
@@ -107,6 +112,18 @@ def run_shape(shape):
     N = n_b
     opp = lambda i: (i + N) % (2 * N)
     dv = decoy_value_factory(eng)
+    cart = bool(shape.get("cartesian"))
+    cpool = {}
+
+    def cv(name):
+        """the Cartesian geometry of the grid under test (Qhull: contract stub): a named positive quantity"""
+        if name not in cpool:
+            cpool[name] = z3.Real("cart_" + name)
+            eng.declare_sign(cpool[name], "+")
+            eng.assume_global(cpool[name] > 0)
+            if Engine.cur is not None:
+                Engine.cur.pc.append(cpool[name] > 0)
+        return SR(cpool[name])
 
     def body():
         with bound(F, bmat=sp.bmat, kron=sp.kron, identity=sp.identity, eye=sp.eye, block_diag=sp.block_diag, coo_matrix=sp.coo_array, csr_matrix=sp.csr_array, csc_matrix=sp.csc_array, csr_array=sp.csr_array, csc_array=sp.csc_array, coo_array=sp.coo_array, diags=sp.diags, print=noprint, np=proxy), bound(TR, np=proxy, print=noprint), \
@@ -116,7 +133,12 @@ def run_shape(shape):
             # other full grids of the same process (another factor and a colliding radial grid; a Cartesian twin under the same names):
             # built and asked for everything before the grid under test exists, and again between its construction and its first getter
             exercise_full_decoys(F, TR, Vm, n_b, o, radii, SR(f), sarr, dv, G, stub, tag="A")
-            fg = make_fullgrid(F, TR, Vm, n_b, o, radii, SR(f), G, stub)
+            if cart:
+                with bound(F, Voronoi=fgstub._NoQhull):
+                    fg = make_fullgrid(F, TR, Vm, n_b, o, radii, SR(f), G, stub, cartesian=True)
+                fgstub._stub_cartesian_getters(fg.position_grid, sarr, cv, "own_")
+            else:
+                fg = make_fullgrid(F, TR, Vm, n_b, o, radii, SR(f), G, stub)
             exercise_full_decoys(F, TR, Vm, n_b, o, radii, SR(f), sarr, dv, G, stub, tag="B")
             A, B, D = fg.get_full_adjacency(), fg.get_full_borders(), fg.get_full_distances()
             V = fg.get_total_volumes()
@@ -143,6 +165,12 @@ def run_shape(shape):
 
     n = n_b * n_o * n_t
     fac = {"adjacency": z3.RealVal(1), "border_len": f * f, "center_distances": f}
+    if cart:
+        npos = n_o * n_t
+        cq = lambda kind, a, b: z3.Real("cart_own_%s%d_%d" % ((kind,) + tuple(sorted((a, b)))))
+        pbor = [[cq("cs", a, b) if padj[a][b] else z3.RealVal(0) for b in range(npos)] for a in range(npos)]
+        pdis = [[cq("cd", a, b) if padj[a][b] else z3.RealVal(0) for b in range(npos)] for a in range(npos)]
+        pvol = [z3.Real(f"cart_own_cv{a}") for a in range(npos)]
     pq = {"adjacency": padj, "border_len": pbor, "center_distances": pdis}
     for path in eng.explore(body):
         acc.begin(prover, path)
@@ -256,9 +284,22 @@ def real_fullgrid(shape, model):
     import contextlib, io
     with contextlib.redirect_stdout(io.StringIO()):
         exercise_full_decoys(F, TR, Vm, n_b, o, np.array(r, dtype=float), f, mk, dvf, G, stub, tag="A")
-        fg = make_fullgrid(F, TR, Vm, n_b, o, np.array(r, dtype=float), f, G, stub)
+        if shape.get("cartesian"):
+            from harness.common import bound as _bound
+            with _bound(F, Voronoi=fgstub._NoQhull):
+                fg = make_fullgrid(F, TR, Vm, n_b, o, np.array(r, dtype=float), f, G, stub, cartesian=True)
+            cvals = {}
+
+            def cvf(name):
+                if name not in cvals:
+                    cvals[name] = g("cart_" + name, 0.41 + 0.037 * len(cvals))
+                return cvals[name]
+            fgstub._stub_cartesian_getters(fg.position_grid, mk, cvf, "own_")
+        else:
+            fg = make_fullgrid(F, TR, Vm, n_b, o, np.array(r, dtype=float), f, G, stub)
         exercise_full_decoys(F, TR, Vm, n_b, o, np.array(r, dtype=float), f, mk, dvf, G, stub, tag="B")
-    spec = dict(area=area, arc=arc, ang=ang, r=r, f=f, present=present, value=value, volume=volume, orb=orb)
+    spec = dict(area=area, arc=arc, ang=ang, r=r, f=f, present=present, value=value, volume=volume, orb=orb,
+                cart=(lambda name: g("cart_" + name, None)) if shape.get("cartesian") else None)
     return fg, spec
 
 
@@ -278,6 +319,15 @@ def numeric_violations(shape, model):
     opp = lambda i: (i + N) % (2 * N)
     Rb, pvol, padj, pbor, pdis = position_spec(n_o, n_t, sp_["area"], sp_["arc"], sp_["ang"], sp_["r"], zero=0.0)
     f = sp_["f"]
+    if sp_.get("cart"):
+        # Cartesian mode: the position-grid quantities are whatever the (stubbed) Cartesian getters of THIS object answer
+        pg = fg.position_grid
+        npos = n_o * n_t
+        Sd = np.asarray(pg.get_cartesian_surfaces().toarray(), dtype=float)
+        Dd = np.asarray(pg.get_cartesian_distances().toarray(), dtype=float)
+        pbor = [[Sd[a, b] if padj[a][b] else 0.0 for b in range(npos)] for a in range(npos)]
+        pdis = [[Dd[a, b] if padj[a][b] else 0.0 for b in range(npos)] for a in range(npos)]
+        pvol = [float(x) for x in pg.get_cartesian_volumes()]
 
     def Afull(prop, i, j):
         if i == j or j == opp(i):
